@@ -63,19 +63,21 @@ type Query struct {
 // the same immutable value, which go/ssa does not CSE).
 func Reach(from Node, target func(Node) bool, q Query) (Node, bool) {
 	type st struct {
-		b   *ssa.BasicBlock
-		i   int
-		asg string
+		b    *ssa.BasicBlock
+		i    int
+		asg  string
+		pred *ssa.BasicBlock // block this one was entered from (nil at the start)
 	}
 	type key struct {
-		b   *ssa.BasicBlock
-		asg string
+		b    *ssa.BasicBlock
+		asg  string
+		pred *ssa.BasicBlock // only distinguished for blocks that start with a phi
 	}
 	seen := map[key]bool{}
 	var work []st
-	work = append(work, st{from.B, from.I + 1, q.InitAssign})
+	work = append(work, st{from.B, from.I + 1, q.InitAssign, nil})
 	if from.I+1 == 0 {
-		seen[key{from.B, q.InitAssign}] = true
+		seen[key{from.B, q.InitAssign, nil}] = true
 	}
 	for len(work) > 0 {
 		s := work[len(work)-1]
@@ -97,6 +99,12 @@ func Reach(from Node, target func(Node) bool, q Query) (Node, bool) {
 		succs := s.b.Succs
 		asgT, asgF := s.asg, s.asg
 		allowT, allowF := true, true
+		if len(succs) == 2 {
+			// branches decided by the edge this block was entered through (a phi
+			// of constants / of values whose nilness is known there) or by a
+			// dominating test of the same value
+			allowT, allowF = feasibleBranches(s.b, s.pred)
+		}
 		if q.CondClass != nil && len(succs) == 2 {
 			if ifi, ok := s.b.Instrs[len(s.b.Instrs)-1].(*ssa.If); ok {
 				if id, pos := q.CondClass(ifi); id != "" {
@@ -106,8 +114,8 @@ func Reach(from Node, target func(Node) bool, q Query) (Node, bool) {
 						tv, fv = "0", "1"
 					}
 					if cur, ok := lookupAssign(s.asg, id); ok {
-						allowT = cur == tv
-						allowF = cur == fv
+						allowT = allowT && cur == tv
+						allowF = allowF && cur == fv
 					} else {
 						asgT = addAssign(s.asg, id, tv)
 						asgF = addAssign(s.asg, id, fv)
@@ -133,14 +141,170 @@ func Reach(from Node, target func(Node) bool, q Query) (Node, bool) {
 					asg = asgF
 				}
 			}
-			kk := key{succ, asg}
+			kk := key{succ, asg, nil}
+			if len(succ.Instrs) > 0 {
+				if _, isPhi := succ.Instrs[0].(*ssa.Phi); isPhi {
+					kk.pred = s.b
+				}
+			}
 			if !seen[kk] {
 				seen[kk] = true
-				work = append(work, st{succ, 0, asg})
+				work = append(work, st{succ, 0, asg, s.b})
 			}
 		}
 	}
 	return Node{}, false
+}
+
+// Nilness of a value at a program point.
+type nilness int
+
+const (
+	nilUnknown nilness = iota
+	isNil
+	nonNil
+)
+
+// nilnessAt decides whether v is nil when control is in block at (having
+// entered v's defining phi, if any, from anywhere).
+func nilnessAt(v ssa.Value, at *ssa.BasicBlock, depth int) nilness {
+	if depth > 6 || v == nil {
+		return nilUnknown
+	}
+	switch x := v.(type) {
+	case *ssa.Const:
+		if x.IsNil() {
+			return isNil
+		}
+		return nilUnknown
+	case *ssa.MakeInterface, *ssa.Alloc, *ssa.MakeClosure, *ssa.Function, *ssa.MakeMap, *ssa.MakeChan, *ssa.MakeSlice:
+		return nonNil
+	case *ssa.ChangeInterface:
+		return nilnessAt(x.X, at, depth+1)
+	case *ssa.Phi:
+		var all nilness
+		for i, e := range x.Edges {
+			if e == ssa.Value(x) {
+				continue
+			}
+			n := nilnessAt(e, x.Block().Preds[i], depth+1)
+			if n == nilUnknown || (all != nilUnknown && all != n) {
+				return nilUnknown
+			}
+			all = n
+		}
+		return all
+	}
+	refs := v.Referrers()
+	if refs == nil {
+		return nilUnknown
+	}
+	for _, r := range *refs {
+		b, ok := r.(*ssa.BinOp)
+		if !ok || (b.Op != token.EQL && b.Op != token.NEQ) {
+			continue
+		}
+		other := b.Y
+		if other == v {
+			other = b.X
+		}
+		if c, isC := other.(*ssa.Const); !isC || !c.IsNil() {
+			continue
+		}
+		for _, r2 := range *b.Referrers() {
+			ifi, ok := r2.(*ssa.If)
+			if !ok {
+				continue
+			}
+			t := ifi.Block()
+			for k, succ := range t.Succs {
+				if len(succ.Preds) != 1 || !(succ == at || succ.Dominates(at)) {
+					continue
+				}
+				// on edge k: condition is (k == 0)
+				condTrue := k == 0
+				eq := b.Op == token.EQL
+				if condTrue == eq {
+					return isNil
+				}
+				return nonNil
+			}
+		}
+	}
+	return nilUnknown
+}
+
+// feasibleBranches prunes the successors of a block that ends in an If whose
+// outcome is fixed on the way it was entered.
+func feasibleBranches(b, pred *ssa.BasicBlock) (allowT, allowF bool) {
+	allowT, allowF = true, true
+	ifi, ok := b.Instrs[len(b.Instrs)-1].(*ssa.If)
+	if !ok {
+		return
+	}
+	v := ifi.Cond
+	pos := true
+	for {
+		u, ok := v.(*ssa.UnOp)
+		if !ok || u.Op != token.NOT {
+			break
+		}
+		v, pos = u.X, !pos
+	}
+	incoming := func(x ssa.Value) (ssa.Value, *ssa.BasicBlock) {
+		ph, ok := x.(*ssa.Phi)
+		if !ok || ph.Block() != b || pred == nil {
+			return x, b
+		}
+		idx := -1
+		for i, p := range b.Preds {
+			if p == pred {
+				if idx >= 0 {
+					return x, b // entered twice from the same block: ambiguous
+				}
+				idx = i
+			}
+		}
+		if idx < 0 {
+			return x, b
+		}
+		return ph.Edges[idx], pred
+	}
+	decided, val := false, false
+	switch x := v.(type) {
+	case *ssa.Phi, *ssa.Const:
+		inc, _ := incoming(x)
+		if c, ok := inc.(*ssa.Const); ok && c.Value != nil && c.Value.Kind().String() == "Bool" {
+			decided, val = true, c.Value.String() == "true"
+		}
+	case *ssa.BinOp:
+		if x.Op != token.EQL && x.Op != token.NEQ {
+			break
+		}
+		o, k := x.X, x.Y
+		if c, ok := o.(*ssa.Const); ok && c.IsNil() {
+			o, k = k, o
+		}
+		c, ok := k.(*ssa.Const)
+		if !ok || !c.IsNil() {
+			break
+		}
+		// the phi may be separated from the test by a conversion-free load only: same block
+		inc, at := incoming(o)
+		switch nilnessAt(inc, at, 0) {
+		case isNil:
+			decided, val = true, x.Op == token.EQL
+		case nonNil:
+			decided, val = true, x.Op == token.NEQ
+		}
+	}
+	if decided {
+		if !pos {
+			val = !val
+		}
+		allowT, allowF = val, !val
+	}
+	return
 }
 
 func lookupAssign(asg, id string) (string, bool) {
